@@ -123,7 +123,7 @@ class Prop(BaseProp):
                 if it.impl is not None and it.impl.doc is None and rng.random() < 0.5:
                     it.impl.doc = mkdoc(rng, it.impl.uid) or [f"{{L{it.impl.uid}.0}} implementation text"]
                     doc_impls.append(it.impl)
-        lay = Layout(rng, comments=rng.choice([0.0, 0.2]), wild=rng.choice([0.0, 0.5, 0.9]), case="random")
+        lay = Layout(rng, comments=rng.choice([0.0, 0.2]), wild=rng.choice([0.0, 0.5, 0.9]), case="random", docforms=rng.choice([0.0, 0.0, 0.3]))
         if mod.module_doc is not None:
             lay_ind = rng.choice(["", "", " ", "  ", "\t", "    "])
         text = render(mod, lay)
